@@ -194,7 +194,8 @@ def script_roll_up(rng, tx, nlines, force_pac=False):
             tx.st()
         tx.cut()
     if rng.random() < 0.3:
-        tx.misc("EDM"); tx.fetch(); tx.cut()
+        # resume first: after a text unit of the same data channel EDM would be "EDM in text mode" (class text-edm)
+        tx.misc("RU%d" % n); tx.misc("EDM"); tx.fetch(); tx.cut()
 
 
 def script_paint_on(rng, tx, nrows):
@@ -220,6 +221,142 @@ def script_text(rng, tx, nlines):
             tx.fetch(tx.pgno(True))
         tx.misc("CR")
         tx.fetch(tx.pgno(True))
+        tx.cut()
+
+
+class RowView:
+    """the sender's own view of the rows it has written (which columns hold a character), so that
+    destructive-vs-non-destructive cursor moves (PAC indent, tab offset) are only sent over empty cells"""
+    def __init__(self):
+        self.occ = {}
+        self.row, self.col = 14, 1
+
+    def cells(self, r=None):
+        return self.occ.setdefault(self.row if r is None else r, set())
+
+    def typed(self, n):
+        for _ in range(n):
+            c = min(self.col, 32)
+            self.cells().add(c)
+            if self.col <= 32:
+                self.col += 1
+
+    def free(self, a, b, r=None):
+        return not any(c in self.cells(r) for c in range(a, b))
+
+
+def edit_ops(rng, tx, rv, istext, allow_edm):
+    """one correction in the middle of a row; returns True when the result is visible at once (fetch allowed)"""
+    kinds = ["bs", "bsder", "der", "tab", "enm", "nul"]
+    if allow_edm:
+        kinds += ["edm", "edm", "edm"]
+    if not istext:
+        kinds += ["midrow"]
+    k = rng.choice(kinds)
+    if k in ("bs", "bsder"):
+        n = rng.randrange(1, 5)
+        for _ in range(n):
+            tx.dbl = True; tx.misc("BS"); tx.dbl = None
+            if rv.col > 1:
+                rv.col -= 1
+                rv.cells().discard(rv.col)
+        if k == "bs":
+            return False                       # visible with the next completed word
+    if k in ("der", "bsder"):
+        tx.misc("DER")
+        rv.occ[rv.row] = {c for c in rv.cells() if c < rv.col}
+        return True
+    if k == "tab":
+        n = rng.randrange(1, 4)
+        if rv.col + n <= 32 and rv.free(rv.col, rv.col + n):
+            tx.tab(n)
+            rv.col += n
+        return False
+    if k == "enm":
+        tx.misc("ENM")
+        return False
+    if k == "edm":
+        tx.misc("EDM")
+        if not istext:
+            rv.occ = {}
+        return True
+    if k == "nul":
+        # two NUL pairs: libzvbi's idle word break (field 1 only; on field 2 a NUL pair never reaches the decoder)
+        if tx.f == 0:
+            tx.cur.append("cc 0 8080"); tx.cur.append("cc 0 8080")
+            return True
+        return False
+    if k == "midrow":
+        if rv.col <= 30:
+            tx.midrow(rng.randrange(7), rng.randrange(2))
+            rv.typed(1)
+            return True
+        return False
+    return False
+
+
+def edited_row(rng, tx, rv, istext, allow_edm, page):
+    """text, then corrections and more text on the SAME row, a fetch at every visibility point"""
+    for seg in range(rng.randrange(1, 5)):
+        room = 32 - rv.col
+        if room < 3:
+            break
+        es = rng.random() < 0.8
+        t = words(rng, rng.randrange(3, max(4, min(room, 14))), end_space=es)
+        if len(t) > room:
+            t = t[:room]
+            es = False
+        tx.text(t)
+        rv.typed(len(t))
+        if es and t and t[-1] == 0x20:
+            tx.fetch(page)
+        if rng.random() < 0.85:
+            if edit_ops(rng, tx, rv, istext, allow_edm):
+                tx.fetch(page)
+
+
+def script_paint_edit(rng, tx, nrows):
+    """paint-on with corrections inside rows: RDC EDM (RDC PAC text (BS* | DER | TO | EDM | ENM | mid-row | NUL NUL | text)*)*;
+    a PAC may come back to a row that holds text (indent only over empty cells)"""
+    page = tx.pgno()
+    rv = RowView()
+    tx.misc("RDC"); tx.misc("EDM"); tx.fetch(); tx.cut()
+    pool = rng.sample(range(15), max(1, min(15, nrows)))
+    for _ in range(nrows + rng.randrange(0, 3)):
+        r = rng.choice(pool)
+        tx.misc("RDC")
+        if rng.random() < 0.75:
+            # indent form; libzvbi overwrites the indent with transparent spaces: only over empty cells
+            i = rng.choice([i for i in (0, 4, 8, 12, 16, 20) if rv.free(1, 1 + i, r)])
+            tx.pac(r, indent=i)
+            rv.row, rv.col = r, 1 + i
+        else:
+            tx.pac(r, colour=rng.randrange(7))
+            rv.row, rv.col = r, 1
+        edited_row(rng, tx, rv, False, True, page)
+        tx.cut()
+
+
+def script_text_edit(rng, tx, nlines, allow_edm):
+    """text mode with corrections inside rows: TR (RTD text (BS* | DER | TO | ENM | NUL NUL | text)* CR)*;
+    with `allow_edm` also EDM, which EIA-608 applies to the CAPTION memory of the data channel"""
+    page = tx.pgno(True)
+    rv = RowView()
+    rv.row = 0
+    tx.misc("TR"); tx.cut()
+    for _ in range(nlines):
+        tx.misc("RTD")
+        edited_row(rng, tx, rv, True, allow_edm, page)
+        if allow_edm:
+            tx.fetch(tx.pgno())
+        tx.misc("CR")
+        if rv.row < 14:
+            rv.row += 1
+        else:
+            rv.occ = {r - 1: c for r, c in rv.occ.items() if r >= 1}
+        rv.occ[rv.row] = set()
+        rv.col = 1
+        tx.fetch(page)
         tx.cut()
 
 
@@ -258,6 +395,12 @@ def field_script(rng, f, services, force_pac=False):
             script_roll_up(rng, tx, rng.randrange(1, 8), force_pac)
         elif kind == "paint":
             script_paint_on(rng, tx, rng.randrange(1, 4))
+        elif kind == "paintx":
+            script_paint_edit(rng, tx, rng.randrange(1, 5))
+        elif kind == "textx":
+            script_text_edit(rng, tx, rng.randrange(1, 18), False)
+        elif kind == "textedm":
+            script_text_edit(rng, tx, rng.randrange(1, 6), True)
         else:
             script_text(rng, tx, rng.randrange(1, 20))
         tx.cut()
@@ -271,23 +414,27 @@ END_DUMP = ["st %d" % i for i in range(9)] + ["glob"]
 class C08(verif.Spec):
     prop = "C08"
     comp = "cc"
-    lean_modules = ["ZvbiModel.Props.C08"]
+    lean_modules = ["ZvbiModel.Props.C08", "ZvbiModel.Props.C08Paint"]
     harness = "cc_harness"
     harness_link_lib = True
     timeout_per_case = 5.0
     partial_note = ("refinement to Eia608 is proved for well-formed pop-on streams, roll-up and paint-on scripts (refines_Eia608_scripts_*: "
                     "byte pairs on field 1 / CC1, fetched page = reference page at every visibility point, by induction over the script "
                     "grammar; for every caption channel at channel level) and checked differentially on the real code for those scripts plus "
-                    "mid-row codes, tabs, BS/DER, text mode, all four channels and both fields; the unrestricted refinement statement is false "
+                    "mid-row codes, tabs, BS/DER, text mode, all four channels and both fields; corrections inside a row (BS, DER, TO, EDM) in paint-on / "
+                    "roll-up / text mode are proved (refines_Eia608_edits_partial) and checked up to solid spaces, which 15.119 (d)(1) leaves to the "
+                    "decoder; the unrestricted refinement statement is false "
                     "(F46, proved counterexample), the unrestricted event statement is false without the two F45 repairs and proved with them; "
                     "XDS/ITV side of caption.c is not modelled")
     assumptions = ["nul_ct and the event counter do not overflow (2^31 null pairs)",
                    "vbi_decode is called with monotone frame times (no time-gap initiated channel switch)"]
     open_statements = ["Zvbi.Props.C08.refines_Eia608_full (false: refines_Eia608_counterexample, F46; true instances: refines_Eia608_scripts_*)",
                        "Zvbi.Props.C08.event_on_change_full (false on a tree without the F45 repairs: event_on_change_counterexample; "
-                       "proved with them: event_on_change_repaired)"]
-    trusted_base = ["translate/gen_cc.py (constants, tables, five source facts: chsw statement order, PAC window clamp, RUx clear(), CR update guard, "
-                    "mid-row italics colour; constants cross-checked by `layout`/`st`, the facts by the correspondence run)",
+                       "proved with them: event_on_change_repaired)",
+                       "Zvbi.Props.C08Paint.fields_independent_full (false with the shared curr_chan: fields_independent_counterexample, F44; "
+                       "for the per-field curr_chan the one-step frame fields_independent_partial is proved, the trace-level projection is not)"]
+    trusted_base = ["translate/gen_cc.py (constants, tables, six source facts: chsw statement order, PAC window clamp, RUx clear(), CR update guard, "
+                    "mid-row italics colour, curr_chan per field; constants cross-checked by `layout`/`st`/`glob`, the facts by the correspondence run)",
                     "harness/cc_harness.c + lean/Driver/Cc.lean (correspondence incl. internal scalars of all nine channels)",
                     "Cc/Spec.lean Eia608: my transcription of 47 CFR 15.119; solid-space rule as libzvbi lays it out"]
 
@@ -321,6 +468,31 @@ class C08(verif.Spec):
             a = field_script(rng, 0, [(k, kind)])
             b = field_script(rng, 1, [(k, kind2)])
             add(merge_fields(rng, a, b) + END_DUMP, "wf-2field")
+        # 3b. corrections in the middle of rows in paint-on and text mode (EDM / ENM / DER / BS / TO / mid-row / idle
+        #     word break, then more text on the same row).  The solid spaces are left unconstrained here (`note lenient`).
+        LEN = ["note lenient"]
+        for _ in range(110 * N):
+            f, k = rng.randrange(2), rng.randrange(2)
+            add(LEN + field_script(rng, f, [(k, "paintx")]) + END_DUMP, "wf-edit-paint")
+        for _ in range(50 * N):
+            f, k = rng.randrange(2), rng.randrange(2)
+            add(LEN + field_script(rng, f, [(k, "textx")]) + END_DUMP, "wf-edit-text")
+        for _ in range(40 * N):
+            f = rng.randrange(2)
+            sv = rng.sample([(0, "cap"), (1, "cap"), (0, "text"), (1, "text")], rng.randrange(2, 5))
+            sv = [(k, rng.choice(["paintx", "paintx", "pop", "roll"]) if c == "cap" else "textx") for k, c in sv]
+            add(LEN + field_script(rng, f, sv) + END_DUMP, "wf-edit-field")
+        for _ in range(30 * N):
+            k = rng.randrange(2)
+            if rng.random() < 0.7:
+                a = field_script(rng, 0, [(k, "paintx")]); b = field_script(rng, 1, [(k, rng.choice(["paintx", "pop", "roll"]))])
+            else:
+                a = field_script(rng, 0, [(k, "textx")]); b = field_script(rng, 1, [(k, "textx")])
+            add(LEN + merge_fields(rng, a, b) + END_DUMP, "wf-edit-2field")
+        # 3c. EDM inside a text-mode transmission: EIA-608 applies it to the caption memory of the data channel
+        for _ in range(12 * N):
+            f, k = rng.randrange(2), rng.randrange(2)
+            add(LEN + field_script(rng, f, [(k, "textedm")]) + END_DUMP, "text-edm")
         # 4. both fields, different channel bit or class: finding F18 expected
         for _ in range(20 * N):
             k = rng.randrange(2)
@@ -516,20 +688,57 @@ class C08(verif.Spec):
         if exp is not None and tag and tag != "margin":
             if len(exp) != len(out):
                 return "reference model produced %d lines for %d ops" % (len(exp), len(out))
+            lenient = "note lenient" in case
             for n, (op, o, e) in enumerate(zip(case, out, exp)):
                 if not op.startswith("fetch"):
                     continue
                 got = o.split(" ", 2)[2] if o.startswith("ok d=") else o
                 want = e[3:] if e.startswith("ok ") else e
+                want, _, mem = want.partition(" m=")
                 if got != want:
                     if tag == "f20":
                         return "F20 mid-row italics: page differs from Eia608 (colour reset to white)"
                     if tag == "xfield":
                         return "F18 page differs from Eia608 when fields with different channel/class are interleaved"
-                    return "page differs from Eia608 [%s] at op %d (%s): got %s want %s" % (tag, n, op, got[:120], want[:120])
+                    d = None
+                    if lenient and mem:
+                        d = self.lenient_diff(got, want, mem)
+                        if d is None:
+                            continue
+                    if tag in ("text-edm", "edm-text"):
+                        return "EDM-in-text-mode: page %s differs from Eia608 after Erase Displayed Memory in a text transmission" % op.split()[1]
+                    return "page differs from Eia608 [%s] at op %d (%s)%s: got %s want %s" % (tag, n, op, d or "", got[:120], want[:120])
         return None
 
-    CORPUS_TAGS = {"f18-": "xfield", "f20-": "f20", "wf-": "wf-corpus"}
+    @staticmethod
+    def unrle(text):
+        out = []
+        for run in text.split(","):
+            n, _, tok = run.partition("*")
+            out += [tok] * int(n)
+        return out
+
+    @classmethod
+    def lenient_diff(cls, got, want, mem):
+        """comparison that leaves the solid spaces to the decoder (47 CFR 15.119 (d)(1): they `may` be added): a cell in
+        which the reference display memory holds nothing must show no glyph (a space, any attributes); every cell
+        the memory does hold must match exactly.  -> None or ' row r col c'"""
+        try:
+            g, w, m = cls.unrle(got), cls.unrle(want), cls.unrle(mem)
+        except ValueError:
+            return " (unparsable page)"
+        if not (len(g) == len(w) == len(m) == 510):
+            return " (page size)"
+        for i in range(510):
+            if g[i] == w[i]:
+                continue
+            # caption pages only: an empty memory cell prints as 20.e0 (a stored cell is never transparent)
+            if m[i] == "20.e0" and g[i].split(".")[0] == "20":
+                continue
+            return " row %d col %d" % (i // 34, i % 34)
+        return None
+
+    CORPUS_TAGS = {"f18-": "xfield", "f20-": "f20", "wf-": "wf-corpus", "edm-text-": "edm-text"}
 
     def corpus_expect(self, case, key):
         """corpus files named f18-* / wf-* are compared with the reference model too"""
@@ -603,6 +812,8 @@ class C08(verif.Spec):
             return "F18-cross-field-routing"
         if what.startswith("F20"):
             return "F20-midrow-italics-resets-colour"
+        if what.startswith("EDM-in-text-mode"):
+            return "EDM-in-text-mode-erases-text-not-caption"
         m = re.match(r"event_on_change: page \d+ changed without a caption event( \(after \w+\))?", what)
         if m:
             return "F19-no-event" + (m.group(1) or "").replace(" ", "-")
